@@ -46,6 +46,7 @@ pub enum SeedingPolicy { Allow, Block }
 impl SeedingPolicy {
     /// ASSUMED (radicle::node::policy): is_block is the negation of the Allow variant.
     pub fn is_block(&self) -> (r: bool) ensures r == (*self == SeedingPolicy::Block) { matches!(self, SeedingPolicy::Block) }
+    pub fn is_allow(&self) -> (r: bool) ensures r == (*self == SeedingPolicy::Allow) { matches!(self, SeedingPolicy::Allow) }
 }
 pub struct SeedPolicy { pub rid: RepoId, pub policy: SeedingPolicy }
 pub uninterp spec fn policy_of(rid: RepoId) -> SeedingPolicy;
@@ -68,6 +69,15 @@ impl DocAt {
     /// public, allow-listed or delegate -- is proved on the real code in unit `identity`).
     #[verifier::external_body]
     pub fn is_visible_to(&self, did: &Did) -> (r: bool) ensures r == visible(self.rid, *did) { unimplemented!() }
+}
+/// radicle::identity::Visibility, allow list abstracted
+pub enum Visibility { Public, Private { allow: u8 } }
+impl DocAt {
+    /// ASSUMED: a public document is visible to everyone (Doc::is_visible_to, proved in unit `identity`)
+    #[verifier::external_body]
+    pub fn visibility(&self) -> (r: &Visibility) ensures *r is Public ==> forall|d: Did| visible(self.rid, d) { unimplemented!() }
+    #[verifier::external_body]
+    pub fn is_public(&self) -> (r: bool) ensures r ==> forall|d: Did| visible(self.rid, d) { unimplemented!() }
 }
 pub struct Repository { pub rid: RepoId }
 impl Repository {
